@@ -265,6 +265,8 @@ func payload(m dsl.Matcher) {
 
 	m.MatchComment("NOTE\\((?P<tag>[a-z]+)\\): (?P<rest>.*)").Report("note $tag").At(m["tag"]).Suggest("<$tag>")
 
+	m.MatchComment("LONG: (?P<body>.*)").Report("long").Suggest("SHORT: $body!")
+
 	m.Match(` + "`" + `ml1(
 		$x,
 	)` + "`" + `, ` + "`" + `ml2($x,
@@ -301,6 +303,7 @@ func t(s S, arr []S) {
 	// TODO(alice) something
 	// FIXME: broken
 	// NOTE(abc): rest of it
+	// LONG: a comment body that is considerably longer than the default sixty byte truncation limit of messages
 	ml1(7)
 	ml2(8, 9)
 	self()
@@ -351,6 +354,7 @@ func c03E2E(c *Ctx) error {
 		{"FIXME: broken", "c $whobroken", lineOf(`"FIXME: (?P<what>.*)"`), "", "FIXME: broken"},
 		{"self()\n}", "self", lineOf(`"self($*args)"`), "self()", "self()"},
 		{"NOTE-at", "note abc", lineOf(`m.MatchComment("NOTE`), "<abc>", "abc"},
+		{"LONG: a comment body that is considerably longer than the default sixty byte truncation limit of messages", "long", lineOf(`m.MatchComment("LONG`), "SHORT: a comment body that is considerably longer than the default sixty byte truncation limit of messages!", "LONG: a comment body that is considerably longer than the default sixty byte truncation limit of messages"},
 		{"ml1(7)", "ml 7", lineOf("`ml1("), "", "ml1(7)"},
 		{"ml2(8, 9)", "ml 8", lineOf("`ml2($x,"), "", "ml2(8, 9)"},
 	}
